@@ -54,14 +54,25 @@ class Decl:
             # and where #[display] sits (0: display first, one #[alt(a, b)]; 1: one #[alt] per alternative,
             # display last; 2: #[alt(a)] #[display] #[alt(b)]; 3: one #[alt(a, b,)] with trailing comma, display last)
             lay = self.layout
+            place = lay % 4
             disp = [f"    #[display({char_lit(v[3])})]"] if v[3] is not None else []
             alts = list(v[4])
-            fmt = lambda xs: "    #[alt(" + ", ".join(f"{a:#b}" if (a + lay) % 2 else str(a) for a in xs) + ("," if lay == 3 else "") + ")]"
-            if lay == 0 or not alts:
+            def lit(a):
+                # every literal form an alternative may be written in: decimal, binary, hex, byte literal / octal
+                form = (a + lay) % 4
+                if form == 0:
+                    return str(a)
+                if form == 1:
+                    return f"{a:#b}"
+                if form == 2:
+                    return f"{a:#x}"
+                return f"b'{chr(a)}'" if 33 <= a < 127 and chr(a) not in "'\\" else f"{a:#o}"
+            fmt = lambda xs: "    #[alt(" + ", ".join(lit(a) for a in xs) + ("," if place == 3 else "") + ")]"
+            if place == 0 or not alts:
                 lines += disp + ([fmt(alts)] if alts else [])
-            elif lay == 1:
+            elif place == 1:
                 lines += [fmt([a]) for a in alts] + disp
-            elif lay == 2:
+            elif place == 2:
                 lines += [fmt(alts[:1])] + disp + ([fmt(alts[1:])] if alts[1:] else [])
             else:
                 lines += [fmt(alts)] + disp
@@ -138,6 +149,9 @@ def grammar(tier, seed):
     for decor in (1, 2, 3):
         ds.append(Decl(f"G7 decorated (style {decor}) plain", [("A", 0, "0", None, []), ("C", 1, "1", None, []), ("G", 2, "2", None, []), ("T", 3, "3", None, [])], decor=decor))
         ds.append(Decl(f"G7 decorated (style {decor}) with display/alt", [("A", 0, "0", "*", [5, 6]), ("C", 1, "1", None, []), ("G", 2, "2", "g", [3, 7])], bits=3, layout=decor, decor=decor))
+    # G4c: an 8-bit codec whose alternatives are the lower-case letters, written as byte literals
+    for lay in (3, 7):
+        ds.append(Decl(f"G4c byte-literal alternatives layout={lay}", [("A", 65, "b'A'", None, [97]), ("C", 67, "b'C'", None, [99]), ("G", 71, "b'G'", None, [103]), ("T", 84, "b'T'", None, [116, 117, 85])], bits=8, layout=lay))
     # G5: variant counts
     for n in [2, 3, 5, 16, 17, 32, 33, 40]:
         nm = names(n)
@@ -338,6 +352,10 @@ NEGATIVE = [
     ("malformed #[bits] (no argument)", ["#[derive(Clone, Copy, Debug, PartialEq, Eq, Hash, Codec)]", "#[bits]", "pub enum E { A = 0, C = 1 }"]),
     ("malformed #[bits] (two arguments)", ["#[derive(Clone, Copy, Debug, PartialEq, Eq, Hash, Codec)]", "#[bits(3, 4)]", "pub enum E { A = 0, C = 1 }"]),
     ("variant with fields", ["#[derive(Clone, Copy, Debug, PartialEq, Eq, Hash, Codec)]", "pub enum E { A = 0, C(u8) = 1 }"]),
+    ("discriminant 256", ["#[derive(Clone, Copy, Debug, PartialEq, Eq, Hash, Codec)]", "pub enum E { A = 0, B = 1, C = 256 }"]),
+    ("discriminants 256 and 258", ["#[derive(Clone, Copy, Debug, PartialEq, Eq, Hash, Codec)]", "pub enum E { A = 0, B = 1, C = 256, D = 258 }"]),
+    ("discriminant 1000 with bits(8)", ["#[derive(Clone, Copy, Debug, PartialEq, Eq, Hash, Codec)]", "#[bits(8)]", "pub enum E { A = 0, C = 1000 }"]),
+    ("discriminant 0x1_00", ["#[derive(Clone, Copy, Debug, PartialEq, Eq, Hash, Codec)]", "pub enum E { A = 0, C = 0x1_00 }"]),
 ]
 GOOD = ["#[derive(Clone, Copy, Debug, PartialEq, Eq, Hash, Codec)]", "#[bits(3)]", "pub enum E { A = 0, C = 5, #[display('*')] X = 7 }"]
 
